@@ -284,6 +284,92 @@ func init() {
 			}
 			return m.appendOp(a[0].(Slice), s, byteAppendSite{})
 		},
+		// sync.Pool: a per-pool LIFO of the values put back (what one goroutine that is not
+		// descheduled observes natively); New is called when it is empty
+		"(*sync.Pool).Get": func(m *Machine, c *frame, a []value) value {
+			p := a[0].(Ptr)
+			k := poolKey(p)
+			if st := m.pools[k]; len(st) > 0 {
+				v := st[len(st)-1]
+				m.pools[k] = st[:len(st)-1]
+				return v
+			}
+			pv := m.load(p).(Struct)
+			for _, f := range pv {
+				if cl, ok := f.(*Closure); ok && cl != nil {
+					return m.callValue(c, cl, nil, nil)
+				}
+			}
+			return Iface{}
+		},
+		"(*sync.Pool).Put": func(m *Machine, c *frame, a []value) value {
+			if x, ok := a[1].(Iface); ok && x.t == nil {
+				return nil
+			}
+			if m.pools == nil {
+				m.pools = map[string][]value{}
+			}
+			k := poolKey(a[0].(Ptr))
+			m.pools[k] = append(m.pools[k], a[1])
+			return nil
+		},
+		// sync.Map: an engine map keyed by the receiver's address (single-threaded semantics;
+		// interleavings inside sync.Map operations are outside the model)
+		"(*sync.Map).Load": func(m *Machine, c *frame, a []value) value {
+			if e := m.mapFind(m.syncMap(a[0].(Ptr)), a[1]); e != nil {
+				return Tuple{copyVal(e.v), boolS(true)}
+			}
+			return Tuple{Iface{}, boolS(false)}
+		},
+		"(*sync.Map).Store": func(m *Machine, c *frame, a []value) value {
+			m.mapSet(m.syncMap(a[0].(Ptr)), a[1], a[2])
+			return nil
+		},
+		"(*sync.Map).LoadOrStore": func(m *Machine, c *frame, a []value) value {
+			mp := m.syncMap(a[0].(Ptr))
+			if e := m.mapFind(mp, a[1]); e != nil {
+				return Tuple{copyVal(e.v), boolS(true)}
+			}
+			mp.entries = append(mp.entries, &mapEntry{k: a[1], v: copyVal(a[2])})
+			return Tuple{a[2], boolS(false)}
+		},
+		"(*sync.Map).LoadAndDelete": func(m *Machine, c *frame, a []value) value {
+			if e := m.mapFind(m.syncMap(a[0].(Ptr)), a[1]); e != nil {
+				e.dead = true
+				return Tuple{copyVal(e.v), boolS(true)}
+			}
+			return Tuple{Iface{}, boolS(false)}
+		},
+		"(*sync.Map).Delete": func(m *Machine, c *frame, a []value) value {
+			if e := m.mapFind(m.syncMap(a[0].(Ptr)), a[1]); e != nil {
+				e.dead = true
+			}
+			return nil
+		},
+		"(*sync.Map).Range": func(m *Machine, c *frame, a []value) value {
+			mp := m.syncMap(a[0].(Ptr))
+			for _, e := range append([]*mapEntry{}, mp.entries...) {
+				if e.dead {
+					continue
+				}
+				if r := m.callValue(c, a[1], []value{e.k, copyVal(e.v)}, nil).(Scalar); r.sym == nil && r.c == 0 {
+					break
+				}
+			}
+			return nil
+		},
+		"(*sync.Once).Do": func(m *Machine, c *frame, a []value) value {
+			if m.pools == nil {
+				m.pools = map[string][]value{}
+			}
+			k := "once:" + poolKey(a[0].(Ptr))
+			if len(m.pools[k]) > 0 {
+				return nil
+			}
+			m.pools[k] = []value{true}
+			m.callValue(c, a[1], nil, nil)
+			return nil
+		},
 		"sort.SliceStable": func(m *Machine, c *frame, a []value) value {
 			// a stable sort has a unique result (for a strict weak order): insertion sort computes it
 			sl := a[0].(Iface).v.(Slice)
@@ -642,4 +728,17 @@ func countBytes(bs []Scalar, ch Scalar) Scalar {
 		return conc(64, n+sum.cv)
 	}
 	return fromTerm(tBV("bvadd", sum, tConst(64, n)))
+}
+
+func poolKey(p Ptr) string { return fmt.Sprintf("%p%v", p.obj, p.path) }
+
+func (m *Machine) syncMap(p Ptr) *Map {
+	if m.syncMaps == nil {
+		m.syncMaps = map[string]*Map{}
+	}
+	k := poolKey(p)
+	if m.syncMaps[k] == nil {
+		m.syncMaps[k] = &Map{}
+	}
+	return m.syncMaps[k]
 }
